@@ -7,6 +7,20 @@ git merge $b 2>&1 | grep -i "conflict\|Merge made\|Already"
 for f in $(git status --short | grep "^UU\|^AA" | cut -c4-); do
   case $f in
     evidence/*) git checkout --theirs $f;;
+    KNOWN_FINDINGS.json) python3 - "$b" <<'PY'
+import json, subprocess, sys
+b = sys.argv[1]
+ours = json.loads(subprocess.check_output(["git", "show", "HEAD:KNOWN_FINDINGS.json"]))
+theirs = json.loads(subprocess.check_output(["git", "show", b + ":KNOWN_FINDINGS.json"]))
+seen = {(e.get("property"), e.get("signature")) for e in ours}
+for e in theirs:
+    if (e.get("property"), e.get("signature")) not in seen:
+        ours.append(e)
+json.dump(ours, open("KNOWN_FINDINGS.json", "w"), indent=1)
+open("KNOWN_FINDINGS.json", "a").write("\n")
+print("resolved KNOWN_FINDINGS.json: union of entries,", len(ours))
+PY
+    ;;
     *) python3 - "$f" "$b" <<'PY'
 import re,sys
 p,b=sys.argv[1],sys.argv[2]
